@@ -39,9 +39,14 @@ ALPHA = ["a", "b", "c", "x", "y", "0", "1", " ", ";", "=", "(", ")", "ab", ","]
 NUM = {"<start>": ["<n>"], "<n>": ["<d><n>", "<d>"], "<d>": list("0123456789")}
 NUM3 = {"<start>": ["<n>"], "<n>": ["<d><n>", "<d>"], "<d>": ["0", "1", "7"]}
 KV = {"<start>": ["<kv>"], "<kv>": ["<k>=<v>"], "<k>": ["a", "b"], "<v>": ["<d><v>", "<d>"], "<d>": ["0", "1", "2", "5"]}
-NAMED = dict(gen.ZOO, num=NUM, num3=NUM3, kv=KV)
+# words of these grammars are valid JSON (arrays, strings) without being derivation trees: the CLI must fall back
+# to parsing them as text
+JLIST = {"<start>": ["<list>"], "<list>": ["[<elems>]", "[]"], "<elems>": ["<num>,<elems>", "<num>", "<list>"], "<num>": ["<d><num>", "<d>"],
+         "<d>": ["1", "2", "7"]}
+JSTR = {"<start>": ["<s>"], "<s>": ["\"<cs>\""], "<cs>": ["<c><cs>", ""], "<c>": ["a", "b", "1"]}
+NAMED = dict(gen.ZOO, num=NUM, num3=NUM3, kv=KV, jlist=JLIST, jstr=JSTR)
 NAMED.pop("eps")  # nullable cycle: outside the domain (ASSUMPTIONS)
-NUMERIC = ["num", "num3", "num", "rec", "int", "kv"]
+NUMERIC = ["num", "num3", "num", "rec", "int", "kv", "jlist", "jlist", "jstr"]
 OTHERS = ["lang", "blk", "csv", "xml"]
 SOLVER_G = ["num3", "num3", "lang", "kv", "rec", "xml", "num"]
 
